@@ -97,7 +97,7 @@ def run_history(case, res=None):
             except RecursionError:
                 continue
             if eq != same:
-                fails.append((f"eq-disagrees-with-structure|{note.split('@')[0]}", f"step {i} {note}: == says {eq}, structure says {same}: {a.sql()[:80]!r} vs {b.sql()[:80]!r} in {case}"))
+                fails.append((f"eq-disagrees-with-structure|{note.split('@')[0]}", f"step {i} {note}: == says {eq}, structure says {same}: {F.safe_sql(a)!r} vs {F.safe_sql(b)!r} in {case}"))
                 break
         if fails:
             break
